@@ -2238,7 +2238,12 @@ func (cs Conditions) inlineTagFilter(tags map[string]TagDetails, referenceTime t
 		tagConditionsSet := td.Conditions.InlineTagFilters(tags, td.ReferenceTime).withReferenceTime(td.ReferenceTime, referenceTime)
 		//TODO: rename subqueries in tagConditionsSet to not collide with the normal query
 		if c.Accept&uncertain == TagConditionAcceptUncertainFailing {
-			tagConditionsSet = tagConditionsSet.invert()
+			if len(tagConditionsSet) == 0 {
+				// a tag without any alternative matches nothing, all undecided streams fail it
+				tagConditionsSet = ConditionsSet{Conditions{}}
+			} else {
+				tagConditionsSet = tagConditionsSet.invert()
+			}
 		}
 		origLen := len(csNew)
 		for range tagConditionsSet {
